@@ -180,11 +180,26 @@ func vmtGenVector(r *rand.Rand, n int) *vmtVector {
 		}
 		return v
 	}
+	if kind == 3 { // the clamp boundaries: most nodes alike, single nodes at 0, ~avg/7, ~avg/6, ~avg, ~7*avg
+		v.inject = make([][2]uint64, n)
+		x, y := uint64(r.Intn(5000)+700), uint64(r.Intn(50000)+700)
+		for i := range v.inject {
+			v.inject[i] = [2]uint64{x, y}
+		}
+		fr := [][2]uint64{{0, 0}, {x / 7, y / 7}, {x/7 + 1, y/7 + 1}, {x / 6, y / 6}, {x / 5, y / 5}, {x - 1, y}, {7 * x, 7 * y}, {7*x - 1, 7 * y}, {6 * x, 6 * y}, {40 * x, y}}
+		for _, i := range r.Perm(n)[:3+r.Intn(2)] {
+			v.inject[i] = fr[r.Intn(len(fr))]
+		}
+		v.inject[r.Intn(n)] = [2]uint64{0, 0}
+		return v
+	}
 	typical := r.Intn(60) + 1
+	idle := make([]bool, n)
 	for i := 0; i < n; i++ {
 		switch {
-		case kind == 1 && r.Intn(3) > 0: // many idle nodes (possibly below the threshold)
+		case kind == 1 && r.Intn(3) > 0: // many nodes without any work (around the threshold)
 			v.lead[i] = 0
+			idle[i] = true
 		case r.Intn(8) == 0:
 			v.lead[i] = 0
 		case r.Intn(12) == 0: // outlier, around and beyond 7x the typical work
@@ -194,10 +209,12 @@ func vmtGenVector(r *rand.Rand, n int) *vmtVector {
 		default:
 			v.lead[i] = typical/2 + r.Intn(typical+1)
 		}
+	}
+	for i := 0; i < n; i++ {
 		for g := 0; g < 2; g++ {
 			p := []float64{0, 0.1, 0.67, 0.9, 1}[r.Intn(5)]
 			for j := 0; j < n; j++ {
-				if j != i && r.Float64() < p {
+				if j != i && !idle[j] && r.Float64() < p {
 					v.groups[i][g] = append(v.groups[i][g], j)
 				}
 			}
